@@ -91,6 +91,16 @@ def _swarm_feat(cfg):
     f["wraps"] = cfg.random() < 0.5
     f["rtcalls"] = cfg.random() < 0.6
     f["rec_builtin"] = cfg.random() < 0.4
+    f["joins"] = cfg.random() < 0.4
+    f["shadows"] = cfg.random() < 0.3
+    f["vardefaults"] = f["defaults"] and cfg.random() < 0.4
+    if f["vardefaults"] and cfg.random() < 0.7:
+        f["rt_args"] = True
+    # layout stratum: kept calls with mixed run-time / literal arguments over several lines that start on the line
+    # of the previous statement (features that only matter together)
+    f["layout"] = cfg.random() < 0.12
+    if f["layout"]:
+        f["multiline"] = f["joins"] = f["rt_args"] = f["targets"] = True
     f["share"] = cfg.choice([0.0, 0.3, 0.6])
     return f
 
@@ -126,10 +136,12 @@ def gen_program(rng, feat):
                 f["params"] = [[f"a{k}", _lit(rng, feat)] for k in range(rng.randint(1, 2))]
         if kind == "target":
             np_ = rng.randint(1, 3)
+            if feat.get("layout") or feat.get("vardefaults"):
+                np_ = max(np_, 2)
             params = []
             seen_default = False
             for k in range(np_):
-                if feat["defaults"] and (seen_default or rng.random() < 0.5):
+                if feat["defaults"] and (seen_default or rng.random() < 0.5) and not (feat.get("vardefaults") and k == 0):
                     params.append([f"a{k}", _lit(rng, feat)])
                     seen_default = True
                 else:
@@ -143,6 +155,16 @@ def gen_program(rng, feat):
     for k in range(feat["nvars"]):
         kind = rng.choice(feat["var_kinds"])
         vars_[f"V{k}"] = {"mod": mods[rng.randrange(nm)], "kind": kind, "value": rng.choice(VAR_VALUES[kind])}
+    if feat.get("vardefaults"):
+        # some defaults are a module variable of the same module (evaluated when the function is defined)
+        for fn in names:
+            f = funcs[fn]
+            same = [v for v in sorted(vars_) if vars_[v]["mod"] == f["mod"]]
+            for prm in f["params"]:
+                if prm[1] != ir.NODEFAULT and same and rng.random() < 0.5:
+                    prm[1] = {"$var": rng.choice(same)}
+            if f["kind"] == "target" and same and len(f["params"]) > 1 and rng.random() < 0.7:
+                f["params"][-1][1] = {"$var": rng.choice(same)}
     prog = {"rec_builtin": bool(feat.get("rec_builtin")),
             "pkg": pkg, "accept": feat["accept"], "decoys": feat["decoys"], "mods": mods, "vars": vars_,
             "funcs": funcs, "order": list(names), "extra": {}, "ext": {"EXTV": 1, "ext_ver": 1}}
@@ -176,9 +198,26 @@ def gen_program(rng, feat):
                 f["body"].insert(rng.randrange(len(f["body"]) + 1), {"t": "var", "name": v, "form": form})
         if feat["ext"] and rng.random() < 0.3:
             f["body"].insert(rng.randrange(len(f["body"]) + 1), {"t": rng.choice(["ext", "extvar"])})
+    if feat.get("shadows") and nm > 1:
+        # name collisions across modules: a helper function of module A named like a tracked variable of module B
+        # (A never binds the variable's name otherwise)
+        for v in sorted(vars_):
+            if rng.random() < 0.6:
+                okmods = [m for m in mods if m != vars_[v]["mod"] and not any(
+                    it["t"] == "var" and it["name"] == v for fn in ir.funcs_in(prog, m) for it in funcs[fn]["body"])]
+                cands = [fn for fn in names if funcs[fn]["mod"] in okmods and funcs[fn]["kind"] != "class"]
+                if cands:
+                    f = funcs[rng.choice(cands)]
+                    f["body"].insert(rng.randrange(len(f["body"]) + 1), {"t": "shadow", "name": v})
     if feat.get("loads"):
         _add_loads(prog, rng, feat)
     _fix_rt_refs(prog, rng, feat)
+    if feat.get("joins"):
+        # some kept calls start on the line of the previous statement
+        for f in funcs.values():
+            for i, it in enumerate(f["body"]):
+                if it["t"] == "keep" and rng.random() < (0.9 if feat.get("layout") else 0.5):
+                    it["join"] = True
     return prog
 
 
@@ -216,16 +255,20 @@ def _add_ref(prog, caller, callee, rng, feat, paths):
     same = g["mod"] == c["mod"]
     form = "direct" if same else rng.choice([x for x in feat["forms"] if x != "direct"] or ["from"])
     if g["kind"] == "target":
-        it = {"t": "keep", "path": paths.pop(), "f": callee, "args": [], "multiline": feat["multiline"] and rng.random() < 0.5}
+        lay = bool(feat.get("layout"))
+        it = {"t": "keep", "path": paths.pop(), "f": callee, "args": [],
+              "multiline": feat["multiline"] and rng.random() < (0.9 if lay else 0.5)}
         if feat["pathvars"] and rng.random() < 0.3:
             it["pathform"] = "var"
         kwmode = False
         for (pn, d) in g["params"]:
             has_default = d != ir.NODEFAULT
-            if has_default and rng.random() < 0.4:
+            if has_default and rng.random() < (0.75 if ir.default_var(d) else 0.4):
                 kwmode = True       # omitted: later parameters must be keyword or omitted
                 continue
-            rt = feat["rt_args"] and rng.random() < 0.4
+            rt = feat["rt_args"] and rng.random() < (0.7 if any(ir.default_var(d2) for (_, d2) in g["params"]) else 0.4)
+            if lay and len(g["params"]) > 1:
+                rt = not any(a["k"] in ("rt", "kwrt") for a in it["args"])    # first bound argument run-time, the rest literal
             if kwmode or (feat["kwargs"] and rng.random() < 0.3):
                 kwmode = True
                 it["args"].append({"k": "kwrt", "n": pn, "e": "?"} if rt else {"k": "kw", "n": pn, "v": _lit(rng, feat)})
@@ -493,6 +536,9 @@ def gen_edit(rng, prog, kinds):
     for k in kinds:
         if k == "var" and prog["vars"]:
             v = rng.choice(sorted(prog["vars"]))
+            bound = sorted({ir.default_var(d) for f in prog["funcs"].values() for (_, d) in f["params"] if ir.default_var(d)})
+            if bound and rng.random() < 0.5:
+                v = rng.choice(bound)       # a variable that is the default value of a parameter
             kind = prog["vars"][v]["kind"]
             choices = [x for x in VAR_VALUES[kind] if x != prog["vars"][v]["value"]]
             if choices:
@@ -505,10 +551,24 @@ def gen_edit(rng, prog, kinds):
             sites = [(fn, i, j) for fn in names for i, it in enumerate(prog["funcs"][fn]["body"]) if it["t"] == "keep"
                      for j, a in enumerate(it["args"]) if a["k"] in ("lit", "kw")]
             if sites:
-                fn, i, j = rng.choice(sites)
+                # half of the time: a literal next to run-time arguments (the call-site context decides), and
+                # preferably one on a continuation line
+                mixed = [s for s in sites if any(a["k"] in ("rt", "kwrt", "rtcall", "kwrtcall")
+                                                 for a in prog["funcs"][s[0]]["body"][s[1]]["args"])]
+                ml = [s for s in mixed if prog["funcs"][s[0]]["body"][s[1]].get("multiline")]
+                pool = ml if ml and rng.random() < 0.5 else (mixed if mixed and rng.random() < 0.5 else sites)
+                fn, i, j = rng.choice(pool)
                 cur = prog["funcs"][fn]["body"][i]["args"][j]["v"]
                 return {"kind": "lit", "f": fn, "item": i, "arg": j,
                         "value": rng.choice([x for x in SAFE_LITERALS if x != cur])}
+        if k == "rtx":
+            sites = [(fn, i, j) for fn in names for i, it in enumerate(prog["funcs"][fn]["body"]) if it["t"] == "keep"
+                     for j, a in enumerate(it["args"]) if a["k"] in ("rt", "kwrt")]
+            if sites:
+                ml = [s for s in sites if prog["funcs"][s[0]]["body"][s[1]].get("multiline")]
+                fn, i, j = rng.choice(ml if ml and rng.random() < 0.5 else sites)
+                cur = prog["funcs"][fn]["body"][i]["args"][j].get("x")
+                return {"kind": "rtx", "f": fn, "item": i, "arg": j, "value": rng.choice([x for x in [2, 3, 5, 8] if x != cur])}
         if k == "default":
             sites = [(fn, j) for fn in names for j, (_, d) in enumerate(prog["funcs"][fn]["params"]) if d != ir.NODEFAULT]
             if sites:
@@ -559,6 +619,10 @@ def _move_ok(prog, fn, m):
     mods = prog["mods"]
     mi = mods.index(m)
     f = prog["funcs"][fn]
+    if any(ir.default_var(d) for (_, d) in f["params"]):
+        return False      # the default names a variable of the old module
+    if any(it["t"] == "shadow" for g in prog["funcs"].values() for it in g["body"]):
+        return False      # same-name helper / variable pairs are placed per module
     for it in f["body"]:
         if "f" in it and mods.index(prog["funcs"][it["f"]]["mod"]) < mi:
             return False
@@ -604,6 +668,10 @@ def apply_edit(prog, e):
             a = p["funcs"][e["f"]]["body"][e["item"]]["args"][e["arg"]]
             if a["k"] in ("lit", "kw"):
                 a["v"] = e["value"]
+        elif k == "rtx":
+            a = p["funcs"][e["f"]]["body"][e["item"]]["args"][e["arg"]]
+            if a["k"] in ("rt", "kwrt"):
+                a["x"] = e["value"]
         elif k == "default":
             prm = p["funcs"][e["f"]]["params"][e["param"]]
             if prm[1] != ir.NODEFAULT:
@@ -653,6 +721,15 @@ def _refresh_forms(p):
                     it["form"] = "from"
 
 
+def _rtcopy(kind, a, n=None):
+    out = {"k": kind, "e": a["e"]}
+    if n is not None:
+        out["n"] = n
+    if a.get("x") is not None:
+        out["x"] = a["x"]
+    return out
+
+
 def _respell(p, it, mode):
     """Respells the argument binding of a keep call without changing it."""
     g = p["funcs"][it["f"]]
@@ -668,7 +745,7 @@ def _respell(p, it, mode):
             bind[a["n"]] = a
     if mode == "explicit_default":
         for (n, d) in g["params"]:
-            if n not in bind and d != ir.NODEFAULT:
+            if n not in bind and d != ir.NODEFAULT and not ir.default_var(d):
                 bind[n] = {"k": "kw", "n": n, "v": d}
         mode = "kw"
     elif mode == "omit_default":
@@ -683,11 +760,11 @@ def _respell(p, it, mode):
             if n not in bind:
                 break
             a = bind[n]
-            args.append({"k": "lit", "v": a["v"]} if a["k"] in ("lit", "kw") else {"k": "rt", "e": a["e"]})
+            args.append({"k": "lit", "v": a["v"]} if a["k"] in ("lit", "kw") else _rtcopy("rt", a))
         rest = [n for n in pnames[len(args):] if n in bind]
         for n in rest:
             a = bind[n]
-            args.append({"k": "kw", "n": n, "v": a["v"]} if a["k"] in ("lit", "kw") else {"k": "kwrt", "n": n, "e": a["e"]})
+            args.append({"k": "kw", "n": n, "v": a["v"]} if a["k"] in ("lit", "kw") else _rtcopy("kwrt", a, n))
         it["args"] = args
     else:
         order = [n for n in pnames if n in bind]
@@ -696,5 +773,5 @@ def _respell(p, it, mode):
         args = []
         for n in order:
             a = bind[n]
-            args.append({"k": "kw", "n": n, "v": a["v"]} if a["k"] in ("lit", "kw") else {"k": "kwrt", "n": n, "e": a["e"]})
+            args.append({"k": "kw", "n": n, "v": a["v"]} if a["k"] in ("lit", "kw") else _rtcopy("kwrt", a, n))
         it["args"] = args
